@@ -28,6 +28,7 @@ OPACUS_PARAM_MONKEYPATCH_ATTRS = [
     "_forward_counter",
     "_current_grad_sample",
     "_norm_sample",
+    "_norm_sampler_use",
 ]
 
 
